@@ -199,6 +199,12 @@ class Parser:
             return ("cutoff", tg, self.next())
         if k == "export":
             return ("export", self.operand(self.next()))
+        if k == "memocall":
+            m = int(self.next())
+            key = self.next()
+            return ("memocall", m, None if key == "lhs" else int(key))
+        if k == "memonew":
+            return ("memonew", self.bindfn())
         if k == "bind":
             lhs = self.operand(self.next())
             return ("bind", lhs, self.bindfn())
@@ -232,6 +238,10 @@ def parse_op(line):
     if k == "subscribe":
         o, hid = int(p.next()), int(p.next())
         return (k, o, hid, p.effs())
+    if k == "memonew":
+        return (k, p.bindfn())
+    if k == "memocall":
+        return (k, int(p.next()), int(p.next()))
     if k in ("stabilise", "isstable", "stats", "dropexports"):
         return (k,)
     raise ValueError("op " + line)
